@@ -9,7 +9,7 @@ import threading
 import warnings
 
 LEVEL = "model_checking"
-RULE = ("Blocked: every thread program of call depth 1..4 with 0..3 `with` managers per level (sum <= 4; the innermost level's managers as nested statements and as one multi-item statement, plus a with inside a for inside a with), parked in Event.wait in the innermost body and inside the __enter__ and the __exit__ of each manager of the innermost level (entering manager not listed, exiting manager listed last with is_exiting); "
+RULE = ("Blocked: every thread program of call depth 1..4 with 0..3 `with` managers per level (sum <= 4, plus 10 / 19 / 20 nested statements in one function - a full block stack; the innermost level's managers as nested statements and as one multi-item statement, plus a with inside a for inside a with), parked in Event.wait in the innermost body and inside the __enter__ and the __exit__ of each manager of the innermost level (entering manager not listed, exiting manager listed last with is_exiting); "
         "extract(thread) must equal the thread's real f_back chain (walked independently from sys._current_frames) with exact "
         "contexts on every user frame; not-started and finished threads have no frames. Racing: a target thread runs a program "
         "whose consecutive gates differ in block stack and value stack (nested withs entered/left, loop iterations, call "
@@ -87,6 +87,11 @@ def blocked_programs():
                 for j in range(k):
                     yield list(nests), form, ["enter", j]
                     yield list(nests), form, ["exit", j]
+    # block stacks that are (nearly) full: CPython allows 20 statically nested blocks
+    for k in (10, 19, 20):
+        yield [k], "nested", ["body"]
+        yield [k], "nested", ["enter", k - 1]
+        yield [k], "nested", ["exit", k - 1]
     # a with inside a for inside a with, parked in the inner manager's __enter__ / body / __exit__
     for park in (["body"], ["enter", 1], ["exit", 1], ["exit", 0]):
         yield [2], "loop", park
